@@ -40,12 +40,34 @@ META = {
             "after extends = discarding, child block, parent block through super(), included template, import-as module, "
             "from-import module = discarding, captures nested inside the discarding ones) and entry form (render, "
             "render_captured, render_captured_to a writer / a sink, render_named_str, State::render_block(_to_write), "
-            "Expression::eval with its null output), with the default and with custom formatters.",
+            "Expression::eval with its null output), with the default and with custom formatters. The matrix is also "
+            "judged as a PRODUCT (stream sx / sxa / sxv): ~60 producers of a non-silent undefined (missing variable, missing "
+            "attribute / key / index of context values, look-ups whose container and key are literals = compile-time "
+            "constants, literal container with a run-time key, values stored in literal containers, ternary / and / or "
+            "results, results of filters and functions, variables bound by set / with / for / unpacking / macro parameters / "
+            "call-block parameters / loop.previtem / namespace attributes) x ~85 consuming constructs (print forms; for, "
+            "for-else, for-if, unpacking for, recursive for, RE-ENTERING a recursive loop with loop(x) -- emitted, inside an "
+            "expression, below the first level, inside set / set-block / a filter / a nested loop --, `*args` in every spread "
+            "position; if / elif / not / and / or / ternary / for-if / break / continue truth tests; attribute, item, chained "
+            "and filter access; `~`; defined / undefined / default), the class belonging to the consumer; its diagonal also "
+            "in every output context / entry form (cx) and through the 9 other entry points (entry), where the error pattern of "
+            "the class is now judged too (errors by their innermost kind: a failing loop(x) wraps the UndefinedError). "
+            "blind_twin_sites_justified: the crate-wide regenerated table of every call of a mode-blind twin of the helpers "
+            "(Value::try_iter / is_true / get_attr / get_item(_opt) / get_attr_fast / get_item_by_index without the mode, "
+            "is_undefined guards; per file, fn, twin with its count) equals the hand-justified table outside the value layer, "
+            "`asks the helper` justifications are backed by a helper call found in the same function, builtin-body excuses "
+            "occur only in the builtin files (never VM / compiler), and the constant folder has no look-up twin.",
     "design_ref": "DESIGN.md §3 C12",
     "level_note": "Trusted: Lean kernel; lib/tables/c12.py (translator: helper match rows, inline mode tests, the control-flow "
                   "tree of the Emit arm, every mention of the mode in minijinja/src + minijinja-contrib/src with its class, helper-call "
                   "lists per instruction arm and per builtin, ArgType impl classification, signatures of the builtins and of what "
-                  "minijinja-contrib registers and their reachability of the mode by regex + local call graph). The "
+                  "minijinja-contrib registers and their reachability of the mode by regex + local call graph; every call of a mode-blind twin "
+                  "`.try_iter(` / `.is_true(` / `.get_attr(` / `.get_item(` / `.get_item_opt(` / `.get_attr_fast(` / `.get_item_by_index(` / "
+                  "`.is_undefined(` not made on the mode, per file / enclosing fn, unit-test modules stripped). The reasons in "
+                  "MJ/Proofs/UndefTwins.lean (twinJustification) are hand-written; what is proved is that the table and the reasons "
+                  "cover each other exactly and that the structural side conditions hold (a helper call in the same fn, builtin "
+                  "excuses only in builtin files, no look-up twin in the constant folder); the value layer (minijinja/src/value/ except "
+                  "argtypes.rs) is exempt wholesale. The "
                   "mode-independent operations are hand models validated by the correspondence stream only, or abstract "
                   "parameters (Ops). The 26 builtins whose source reaches the mode are hand-modelled as their helper questions in "
                   "source order (nested filter/test calls included) followed by an abstract mode-independent rest; that question "
@@ -71,7 +93,10 @@ META = {
                   "(builtin_params_consulting_mode: a builtin that starts to take an argument through a checking conversion, or a "
                   "contrib function whose source starts to reach the mode, breaks it); the contrib filters / globals and pycompat's "
                   "method callback are exercised like the builtins (streams callx / sweepx / pyx) and predicted from their "
-                  "signatures. STILL OUTSIDE THE MODEL (oracle streams only): recursive loops, tuples, floats, custom objects, bytes, "
+                  "signatures. (5) session 4: WHICH sites may decide without the mode -- the crate-wide blind-twin table "
+                  "(blind_twin_sites_justified); before, only the mentions of the mode were tabulated (all_mode_sites_monotone), so a site "
+                  "that stopped mentioning the mode in favour of the twin (seeded C12-6, C12-7) left every table intact. "
+                  "STILL OUTSIDE THE MODEL (oracle streams only): recursive loops (the sx stream judges loop(x) re-entry by the matrix; the Lean VM has no FastRecurse), tuples, floats, custom objects, bytes, "
                   "one-shot iterators, the JSON / custom auto-escape formats (escape with a custom format goes through "
                   "Environment::format), the bodies of replace / format / indent / title / capitalize with mixed safe and plain "
                   "operands (abstract Ops.pureBody), the bodies of the contrib functions, filters/tests added by the embedding "
@@ -89,9 +114,11 @@ META = {
 
 MODES = ["chainable", "lenient", "semistrict", "strict"]
 SITE_STREAMS = ("site", "sitea", "fmt", "fmtv", "fmtc")
+# the site matrix as a product (producers of an undefined x consuming constructs): plain / `.html` / visible formatter / `.json`
+SX_STREAMS = ("sx", "sxa", "sxv", "sxj")
 MODEL_STREAMS = ("site", "sitea", "fmt", "fmtv", "fmtc", "prog", "proga", "progv", "progc")
 NEEDED = ["C12_MODE_SITES", "C12_ARG_TYPES", "C12_BUILTIN_SIGS", "C12_CONTRIB_SIGS", "C12_MODES", "C12_HANDLE_UNDEFINED", "C12_IS_TRUE", "C12_ASSERT_ITERABLE", "C12_ASSERT_VALUE_NOT_UNDEFINED",
-          "C12_TRY_ITER", "C12_VM_EMIT", "C12_VM_EMIT_SHAPE", "C12_ROW_FNS", "C12_VM_SLICE", "C12_ENV_FORMAT", "C12_VM_SITES", "C12_BUILTIN_NAMES"]
+          "C12_TRY_ITER", "C12_VM_EMIT", "C12_VM_EMIT_SHAPE", "C12_ROW_FNS", "C12_VM_SLICE", "C12_ENV_FORMAT", "C12_VM_SITES", "C12_BUILTIN_NAMES", "C12_BLIND_TWINS"]
 
 # the documented matrix per site class: which modes must fail with UndefinedError
 MATRIX = {
@@ -161,14 +188,25 @@ def judge(r, stream, label, src, rs):
         if rs[j].startswith("ok:"):
             for i in range(j):
                 if rs[i] != rs[j]:
-                    who = builtin_of(stream, label) or (label.split(":")[0] + ":" + src if stream in SITE_STREAMS or stream.startswith(("stmt", "api", "entry", "cx.")) else "program")
+                    who = builtin_of(stream, label) or (label.split(":")[0] + ":" + src if stream in SITE_STREAMS + SX_STREAMS or stream.startswith(("stmt", "api", "entry", "cx.")) else "program")
                     weak = rs[i] if not rs[i].startswith(("ok:", "panic:")) else rs[i].split(":")[0] + ":different-output" if rs[i].startswith("ok:") else "panic"
                     r.oracle_failure(case, f"{MODES[j]} renders {dec(rs[j])!r} but the weaker mode {MODES[i]} gives {dec(rs[i])!r}",
                                      f"mono:{stream}:{who}:{MODES[j]}-ok/{MODES[i]}-{weak}")
                     n += 1
     # (2) the documented site matrix (in the `cx.` streams: in every output context and entry form; an error raised in
     # an included / imported template or in a block is judged by its innermost kind)
-    if stream in SITE_STREAMS or stream.startswith("cx."):
+    if stream == "entry":
+        # the site templates through the other entry points / configurations: the error pattern of the class
+        entry, klass = label.split(":")
+        na = "ok:" + "not-an-expression".encode().hex()
+        if klass in MATRIX and not (entry == "expression" and (klass == "print" or rs[0] == na)):
+            for i, must_fail in enumerate(MATRIX[klass]):
+                if must_fail != (root(rs[i]) == "err:UndefinedError") or (not must_fail and not rs[i].startswith("ok:")):
+                    r.oracle_failure(case, f"site class `{klass}` through entry `{entry}`: under {MODES[i]} the site must "
+                                           f"{'fail with UndefinedError' if must_fail else 'succeed'}, engine gives {dec(rs[i])!r}",
+                                     f"site:entry.{entry}:{klass}:{src}:{MODES[i]}")
+                    n += 1
+    if stream in SITE_STREAMS + SX_STREAMS or stream.startswith("cx."):
         klass, exp_hex = label.split(":")
         if klass in MATRIX:
             # `*`: the visible / counting formatters print other text; only ok-vs-error is judged there
@@ -183,7 +221,9 @@ def judge(r, stream, label, src, rs):
 
 
 def run(r):
-    r.rule = ("site templates (documented matrix; default formatter and three custom formatters: delegating, one that prints "
+    r.rule = ("the site matrix as a product producer-of-undefined x consuming construct (streams sx, sxa = .html, sxv = visible "
+              "formatter; quick: the plain variable and the constant look-ups meet every consumer, the other producers a third, "
+              "rotated by VERIF_SEED; thorough: the full product); site templates (documented matrix; default formatter and three custom formatters: delegating, one that prints "
               "undefined as U and none as N, one counting its invocations); the same site templates in 27 output contexts x 8 "
               "entry forms x formatters (stream cx.<context>.<entry>.<formatter>: the matrix is judged in each, errors raised "
               "inside an included / imported template or a block by their innermost kind); every builtin filter/test/function with a "
@@ -268,7 +308,7 @@ def run(r):
         for x in rs:
             if not x.startswith("ok:"):
                 r.hist["error kinds"][x.split(":")[0] + ":" + (x.split(":")[1] if x.startswith("err:") else "")] += 1
-        if stream in SITE_STREAMS:
+        if stream in SITE_STREAMS + SX_STREAMS:
             r.hist["site class"][label.split(":")[0]] += 1
         if stream.startswith("cx."):
             _, cxname, entry, fk = stream.split(".")
